@@ -77,8 +77,12 @@ def case_args(req):
 def fetch_dump(hb, req):
     a = case_args(req)
     a["table"] = gen_c18.TABLE
+    stream = "c18-case"
+    if req.startswith("c18 process "):
+        stream, a["dump"], a["n"] = "c18-process", "1", str(int(a["idx"]) + 1)
+        a.pop("root", None)
     try:
-        rows = harness(hb, "c18-case", **a)
+        rows = harness(hb, stream, **a)
     except Exception as e:  # noqa
         return {"error": str(e)[:500]}
     return {"rows": [r for r in rows if not r[0].startswith("c18-dump")][:8],
@@ -160,7 +164,10 @@ def main():
 
     def classify(r):
         m = re.match(r"FAIL (shared|omitted) (\S+)", r[2])
-        return m.group(0) if m else re.sub(r"[0-9]+", "N", r[2])[:120]
+        if m:
+            return m.group(0)
+        kind = "process " if r[0].startswith("c18 process") else ""
+        return kind + re.sub(r"[0-9]+", "N", r[2].split(" at ")[0])[:120]
 
     all_fail_labels = {}
     tie_examples = []
@@ -216,6 +223,7 @@ def main():
         return cov_row
 
     consume("c18-witness", harness(hb, "c18-witness", table=gen_c18.TABLE))   # pinned inputs: must pass
+    consume("c18-process", harness(hb, "c18-process", table=gen_c18.TABLE, n=25 if c.tier == "quick" else 400, seed=c.seed, depth=3))
     cav = harness(hb, "c18-caveat", table=gen_c18.TABLE)
     c.cov["caveat_dynamic_types_outside_the_universe"] = [{"input": r[0], "value": r[1][:200], "observed": r[2][:200]} for r in cav]
     plans = [(c.seed, 3, 140)] if c.tier == "quick" else [(c.seed, 3, 2500), (c.seed + 1, 4, 2500), (c.seed + 2, 5, 1500), (c.seed + 3, 2, 1500)]
@@ -251,4 +259,7 @@ def main():
               if not static_bad else "the regenerated table has %d entries that are not good: %s" % (len(static_bad), sorted(static_bad))))
 
 
-main()
+# the regenerated facts (lean/Cog/Gen/*, .work/c18_table.json) are global files: two C18 runs against
+# different trees (VERIF_REPO copies, seed tests) must not interleave
+with Lock("c18-check"):
+    main()
